@@ -925,6 +925,8 @@ func (r *c22Run) excluded(f c22Fault) bool {
 }
 
 func (r *c22Run) classify(a *c22Attempt, plan *c22Plan, msg string) error {
+	r.st().Lock()
+	defer r.st().Unlock()
 	if a.armed != nil && a.armed.Mode == "setup" && a.armed.Task.Kind() == "disconnect" && a.armed.Task.Status() == state.ErrorStatus {
 		return verifkit.Knownf(c22FpDisconnectSetup, "%s", msg)
 	}
@@ -937,8 +939,8 @@ func (r *c22Run) classify(a *c22Attempt, plan *c22Plan, msg string) error {
 func (r *c22Run) classifyProfile(a *c22Attempt, plan *c22Plan, name, msg string) error {
 	st := r.st()
 	st.Lock()
+	defer st.Unlock()
 	refs, _ := r.repo().Connections(name)
-	st.Unlock()
 	now := map[string]bool{}
 	for _, id := range c22SortedIDs(refs) {
 		now[id] = true
@@ -977,10 +979,8 @@ func (r *c22Run) classifyProfile(a *c22Attempt, plan *c22Plan, name, msg string)
 	case a.armed != nil && a.armed.Mode == "setup" && a.armed.J == 1 && a.armed.Task.Kind() == "connect" && a.armed.Task.Status() == state.ErrorStatus:
 		var plugRef interfaces.PlugRef
 		var slotRef interfaces.SlotRef
-		st.Lock()
 		a.armed.Task.Get("plug", &plugRef)
 		a.armed.Task.Get("slot", &slotRef)
-		st.Unlock()
 		id := (&interfaces.ConnRef{PlugRef: plugRef, SlotRef: slotRef}).ID()
 		if name == slotRef.Snap && len(extra) == 1 && extra[0] == id {
 			fp = c22FpConnectSetup
